@@ -579,6 +579,25 @@ def _est_names(e):
     return out
 
 
+def termination_theorem_applies(case):
+    """the static hypotheses of one of the two termination theorems of Props/C08.lean hold:
+    idcstar_own_recursion_terminates -- no variable NAME occurs both among the outcomes and among the conditions; or
+    idcstar_terminates_shared_names  -- (IdcInv) no key is self-intervened, subscript sets are consistent, variables of the graph"""
+    outs, conds = case["outcomes"], case["conditions"]
+    on, cn = {int(v_[1]) for v_, _ in outs}, {int(v_[1]) for v_, _ in conds}
+    if len({C.enc(v_) for v_, _ in conds}) == len(conds) and not (on & cn):
+        return True
+    if len({C.enc(v_) for v_, _ in outs}) != len(outs) or len({C.enc(v_) for v_, _ in conds}) != len(conds):
+        return False
+    nodes = set(G.all_nodes(case["g"]))
+    for var, val in outs + conds:
+        names = [int(n) for n, _ in var[4]]
+        if str(var[2]) != "n" or str(var[3]) != "0" or int(var[1]) not in nodes or len(set(names)) != len(names) \
+                or int(var[1]) in names or not isinstance(val, str):
+            return False
+    return True
+
+
 def _static_fragment(case):
     """the static part shared by the two proved fragments: factual variables of the graph, unstarred values, no name on both sides"""
     outs, conds = case["outcomes"], case["conditions"]
@@ -715,8 +734,9 @@ def run_python(case):
             "order_dependent_verdict": r["order_verdict"], "gen": case.get("gen", "random"),
             # Props/C08.lean idcstar_sound_fragment: inside the fragment the answer is proved right
             # Props/C08.lean idcstar_own_recursion_terminates: no name is both an outcome and a condition
-            "termination_theorem_applies": not ({int(v_[1]) for v_, _ in case["outcomes"]} &
-                                                {int(v_[1]) for v_, _ in case["conditions"]}),
+            # Props/C08.lean idcstar_terminates_shared_names: no self-intervened key
+            "termination_theorem_applies": termination_theorem_applies(case),
+            "shared_names": bool({int(v_[1]) for v_, _ in case["outcomes"]} & {int(v_[1]) for v_, _ in case["conditions"]}),
             "in_fragment_c": frag, "in_fragment_c_answered": bool(frag and shape in ("P", "sum", "prod", "frac")),
             # Props/C08.lean idcstar_sound_fragment_exchange: one factual condition, exchanged by rule 2
             "in_fragment_x": fragx, "in_fragment_x_answered": bool(fragx and shape in ("P", "sum", "prod", "frac")),
@@ -726,7 +746,8 @@ def run_python(case):
     answered = first[0] == "ok"
     # the model's own verdict on the two proved fragments (driver op idc_star_checked) must agree with the classification of
     # the REAL run whenever IDC* answered: part of the correspondence
-    out = {"out": ["orders", by_order, ["frag", bool(frag and answered), bool(fragx and answered)]], "fail": r["fail"],
+    out = {"out": ["orders", by_order, ["frag", bool(frag and answered), bool(fragx and answered),
+                                        termination_theorem_applies(case)]], "fail": r["fail"],
            "nontrivial": bool(nontrivial), "tags": tags}
     if r["fail"] and r["order_verdict"] == "mixed":
         out["fail"] += (" [the answer depends on the iteration order of a Python set (PYTHONHASHSEED): under another order "
@@ -778,7 +799,8 @@ def canon_model(case, rep):
         return ["model-error", rep]
     res = [_canon_one(r) for r in rep[2:]]
     answered = res[0][0] == "ok"
-    return ["orders", res, ["frag", bool(str(rep[1][1]) == "1" and answered), bool(str(rep[1][2]) == "1" and answered)]]
+    return ["orders", res, ["frag", bool(str(rep[1][1]) == "1" and answered), bool(str(rep[1][2]) == "1" and answered),
+                            str(rep[1][3]) == "1"]]
 
 
 def shrink(case):
